@@ -59,6 +59,18 @@ func main() {
 		rc := cmdProbe(*repo)
 		out.Flush()
 		os.Exit(rc)
+	case "hist":
+		// replay of a history witness: hist <kind> <seed> <wild> <history> <variant>
+		if len(os.Args) == 7 {
+			var kind int
+			var sd uint64
+			fmt.Sscan(os.Args[2], &kind)
+			fmt.Sscan(os.Args[3], &sd)
+			wild := os.Args[4] == "true"
+			for _, h := range os.Args[5:7] {
+				fmt.Fprintf(out, "%s: %s\n", h, strings.Join(mkHAgg(kind, sd, wild).runPlain(hx.NewRng(sd^1), h), " "))
+			}
+		}
 	case "worker":
 		cmdWorker()
 	case "corr":
@@ -463,6 +475,8 @@ func cmdCorr3(seed uint64, n int, exh int) {
 			metas = append(metas, "M\t")
 		}
 	}
+	// H: encode histories through the two encoders (in-process: the structures are built through the public API)
+	genHCases(r, n/2, func(line string) { fmt.Fprintln(out, line) })
 	res := runJobs(jobs, nprocs())
 	for i, m := range metas {
 		if m[0] == 'P' {
@@ -636,5 +650,6 @@ func cmdSearch3(seed uint64, n int) {
 			}
 		}
 	}
-	fmt.Fprintf(out, "EVALS\t%d\n", len(jobs))
+	hn := searchHist(r, n/8)
+	fmt.Fprintf(out, "EVALS\t%d\n", len(jobs)+hn)
 }
